@@ -107,6 +107,12 @@ def c05(ctx):
     for b in (dev, rel):
         ctx.replay(b, "registry", out, {"C05"}, label="registry-" + os.path.basename(b))
     rm(out)
+    # growth (text forms): Header::set_code on every short text, accepted or precondition violated
+    out = ctx.path("codetext.nd")
+    ctx.model_check("MC_CodeText", env={"LEN": 5 if ctx.thorough else 4, "OUT": out}, workers=8, timeout=900, expect_states=20000)
+    for b in (dev, rel):
+        ctx.replay(b, "codetext", out, {"C05"}, label="codetext-" + os.path.basename(b))
+    rm(out)
 
 
 # ------------------------------------------------------------------------------ C06 typed option values
